@@ -65,6 +65,10 @@ CLAIMED = {
          'Exploration by generated histories (2-15 calls, 3-8 templates): output byte equality and error nil-ness/position equality between fresh state and history position; evidence reports how many histories observed Runtime reuse and a failing execution followed by a probing one on the same Runtime.',
          'sync.Pool reuse is made deterministic with one P and the GC disabled for the duration of a history; not run under -race (race mode drops pooled items at random). Error texts are not compared (they may print addresses).',
          'DESIGN.md section 5/C10'),
+ 'C06': ('property-based testing (rapid): access paths generated against the shape of zoo values (structs with exported/unexported/promoted/shadowed fields, value and pointer methods, maps with string/int/named keys, slices, arrays, strings, multi-level pointers, interfaces, nils); oracle = independent direct reflect resolver (value identity by pointer / DeepEqual inside the template through a checking function), metamorphic .name vs ["name"] twin, scalar rendering, invalid step => error (no panic), absent key => nil',
+         "Exploration by generated search over step kinds x spellings x bases (variable, '.', call result) x 6 zoo variants, with an optional invalid step at any depth; label histogram of step kinds and failure classes in the evidence.",
+         'The zoo is a fixed family of hand-written Go types (types with methods cannot be created at run time). Not generated: pointer-receiver methods on unaddressable values, methods on nil pointers, selectors ambiguous in Go, absent map keys through .name syntax, anything after a slice expression (grammar).',
+         'DESIGN.md section 5/C06'),
 }
 PENDING = {}
 
